@@ -414,7 +414,7 @@ def explore(write_of, versions, depth, pieces, picks, tmp, res, tags, ident, see
                 if key not in reported and len(reported) < max_fail:
                     reported.add(key)
                     res.fail("raises:" + info["raised"], {"message": info["message"], "schedule": hist, "directory_before": _describe_dir(state, versions)},
-                             prestate=pre_shape, level=level, bucket="%s/%s" % (tags["site"], pre_shape))
+                             prestate=pre_shape, level=level, bucket=pre_shape)
             if n_ops == 0:
                 lab("write_without_file_operations")
             for k, post in enumerate(posts, 1):
@@ -435,7 +435,7 @@ def explore(write_of, versions, depth, pieces, picks, tmp, res, tags, ident, see
                         reported.add(key)
                         res.fail(kind, {"what": text, "schedule": hist + [step], "directory_before": _describe_dir(state, versions),
                                         "directory_after": _describe_dir(post, versions)},
-                                 prestate=pre_shape, level=level, died_after=opkind(trace[k - 1]), bucket="%s/%s" % (tags["site"], pre_shape))
+                                 prestate=pre_shape, level=level, died_after=opkind(trace[k - 1]), bucket=pre_shape)
                     continue  # nothing is explored behind a state that already violates the property
                 sh = shape_of(post, known)
                 step = dict(step, leaves=sh)
@@ -629,12 +629,12 @@ def _body(c, tmp):
     seed = c.get("torch_seed", 0)
     versions, info = reference_texts(site.write_of, c["depth"] + 1, tmp, 1, seed)
     if versions is None:
-        return res.fail("raises:" + info["raised"], {"message": info["message"], "where": "write into an empty directory"}, prestate="empty", bucket=c["site"] + "/empty")
+        return res.fail("raises:" + info["raised"], {"message": info["message"], "where": "write into an empty directory"}, prestate="empty", bucket="empty")
     for i, v in enumerate(versions):
         try:
             json.loads(v.decode())
         except ValueError as e:
-            return res.fail("unparseable", {"version": i, "error": str(e)[:200]}, prestate="empty", bucket=c["site"] + "/empty")
+            return res.fail("unparseable", {"version": i, "error": str(e)[:200]}, prestate="empty", bucket="empty")
     if len(set(versions)) != len(versions):
         raise HarnessError("C18: two versions of the checkpoint have identical text")
     ident = (c["site"], c["sizes"], c["two_d"], c["pieces"])
@@ -811,7 +811,7 @@ def _body_syscall(c, tmp):
     level = c["level"]
     versions, info = reference_texts(site.write_of, level + 1, tmp, 1, seed)
     if versions is None:
-        return res.fail("raises:" + info["raised"], {"message": info["message"], "where": "write into an empty directory"}, prestate="empty", bucket=c["site"] + "/empty")
+        return res.fail("raises:" + info["raised"], {"message": info["message"], "where": "write into an empty directory"}, prestate="empty", bucket="empty")
     casefile = os.path.join(tmp, "case.json")
     with open(casefile, "w") as f:
         json.dump(c, f)
@@ -843,10 +843,12 @@ def _body_syscall(c, tmp):
         if post != posts[k - 1]:
             res.fail("model_mismatch", {"what": "a real process killed by strace leaves a different directory than the forked model", "schedule": hist + [step],
                                         "strace": _describe_dir(post, versions), "fork_model": _describe_dir(posts[k - 1], versions)},
-                     prestate=pre_shape, level=level, bucket=c["site"] + "/model")
+                     prestate=pre_shape, level=level, bucket="model")
         for kind, text in judge(post, versions[: level + 1]):
+            if any(f.kind == kind for f in res.fails):
+                continue
             res.fail(kind, {"what": text, "schedule": hist + [step], "directory_before": _describe_dir(state, versions), "directory_after": _describe_dir(post, versions)},
-                     prestate=pre_shape, level=level, died_after=opkind(trace[k - 1]), bucket="%s/%s" % (c["site"], pre_shape))
+                     prestate=pre_shape, level=level, died_after=opkind(trace[k - 1]), bucket=pre_shape)
         if k < n and level == 2 and had_inside:
             keys.append((c["site"], c["sizes"], c["two_d"], [h["died_after_op"] for h in hist] + [k]))
     res.evals = len(ks)
